@@ -456,10 +456,17 @@ def r13e(ctx):
     for p in returning(paths(repo, fwd)):
         r = p.retval
         deq = any(a == ('attr', SELF, 'dequantize') and v for a, v in p.assumptions)
-        sc = ('attr', SELF, 'scale')
+        # the scale as a value: self.scale / self._scale read after the store, or the stored
+        # product itself kept in a local
+        prod = ('bin', '*', ('param', fwd.params[2]), ('param', fwd.params[3]))
+
+        def is_scale(x, prod=prod):
+            x = poly.substitute(x, {('attr', SELF, 'scale'): prod, ('attr', SELF, '_scale'): prod})
+            return poly.equal(x, prod)
         inner = [x for x in subterms(r) if callee(x) and callee(x).endswith('QuantizeBiasSTE.apply')]
-        ok = bool(inner) and inner[0][2][1] == sc and \
-            (not deq or (r[0] == 'bin' and r[1] == '*' and sc in (r[2], r[3])))
+        ok = bool(inner) and len(inner[0][2]) > 1 and is_scale(inner[0][2][1]) and \
+            (not deq or (r[0] == 'bin' and r[1] == '*' and
+                         (is_scale(r[2]) or is_scale(r[3]))))
         ctx.ob('R13e', f'QuantizerBias.forward[dequantize={deq}]', ok,
                'divides by and re-multiplies with the same scale' if ok else
                f'bias path is {short(r)}', where(fwd))
